@@ -405,11 +405,13 @@ def xref_errors(model):
 # ----------------------------------------------------------------------------
 # S2: FBA reference
 # ----------------------------------------------------------------------------
-def fba_problems(model, ledger=None, core_only=False, raw=None, check_objective=True):
+def fba_problems(model, ledger=None, core_only=False, raw=None, check_objective=True, foreign_cols_ok=False):
     """Discrepancies between the raw GLPK problem and the flux-balance problem of
     the model's Python-side data.  ledger = {"cols": set(names), "rows": set(names)}
     of things the user added explicitly (ignored by the comparison);
-    core_only: do not complain about unknown extra rows/columns."""
+    core_only: do not complain about unknown extra rows/columns;
+    foreign_cols_ok: nor about coefficients that metabolite rows carry on columns that are
+    no reaction's (add_lp_feasibility documents that it adds slack columns to them)."""
     from cobra.util.solver import linear_reaction_coefficients
 
     probs = []
@@ -472,7 +474,7 @@ def fba_problems(model, ledger=None, core_only=False, raw=None, check_objective=
                 want[fwd_of[r.id]] = want.get(fwd_of[r.id], 0.0) + coef
                 want[rev_of[r.id]] = want.get(rev_of[r.id], 0.0) - coef
         for cn in sorted(set(want) | set(row[2]), key=str):
-            if cn in ledger["cols"]:
+            if cn in ledger["cols"] or (foreign_cols_ok and cn not in want and cn not in expected_cols):
                 continue
             u, v = want.get(cn, 0.0), row[2].get(cn, 0.0)
             if not close(float(u), float(v)):
